@@ -409,3 +409,28 @@ def gen_arm_on_floor_scene(rng):
     scene["contacts"].append({"type": "s2p", "plane": {"r": [0.0, 0.0, -rad], "p": [1.0, 0.0, 0.0, 0.0]}, "body": 0, "radius": rad, "rB": [L / 2, 0.0, 0.0], "mu": mu, "eN": 0.0, "eF": 0.0})
     scene["dof_estimate"] = 1
     return scene
+
+
+def gen_bar_on_supports_scene(rng):
+    """A rigid bar resting on a plane on two or three spherical feet (several closed contacts on ONE body, coupled
+    through it), loaded by gravity, an applied moment and / or an eccentric force: the contact-free acceleration may open
+    one foot while the reaction of another presses it back."""
+    L = float(rng.uniform(0.6, 2.0))
+    rad = float(rng.uniform(0.03, 0.1))
+    m = float(rng.uniform(0.5, 3.0))
+    th = m * L**2 / 12.0
+    body = {"kind": "rigid", "m": m, "theta": [0.2 * th, th, th], "r": [0.0, 0.0, rad], "p": [1.0, 0.0, 0.0, 0.0], "v": [0.0, 0.0, 0.0], "w": [0.0, 0.0, 0.0]}
+    scene = {"t0": 0.0, "bodies": [body], "frames": [], "joints": [], "tpis": [], "laws": [], "actuators": [], "forces": [], "contacts": []}
+    scene["gravity"] = [0.0, 0.0, -9.81]
+    feet = [[-L / 2, 0.0, 0.0], [L / 2, 0.0, 0.0]]
+    if rng.random() < 0.4:
+        feet.append([0.0, float(rng.uniform(0.2, 0.6)) * L, 0.0])
+    mu = float(rng.choice([0.0, 0.0, 0.3, 0.8]))
+    for f in feet:
+        scene["contacts"].append({"type": "s2p", "plane": {"r": [0.0, 0.0, 0.0], "p": [1.0, 0.0, 0.0, 0.0]}, "body": 0, "radius": rad, "rB": f, "mu": mu, "eN": 0.0, "eF": 0.0})
+    # moment about the horizontal axis across the bar, from well below to above what tips the bar over one foot
+    M = float(rng.uniform(-0.9, 0.9) * m * 9.81 * L / 2)
+    scene["forces"].append({"type": "moment", "body": 0, "vec": [0.0, M, 0.0], "rB": [0, 0, 0], "time": "const"})
+    if rng.random() < 0.5:
+        scene["forces"].append({"type": "force", "body": 0, "vec": [float(rng.uniform(-3, 3)), float(rng.uniform(-1, 1)), float(rng.uniform(-5, 3))], "rB": [float(rng.uniform(-0.5, 0.5)) * L, 0.0, 0.0], "time": "const"})
+    return scene
